@@ -516,7 +516,11 @@ def gen_scenario(rng) -> Dict[str, Any]:
         argv.append("--pretty")
     env_swarm: Dict[str, Any] = {}
     if rng.random() < 0.4:
-        for k, vals in (("COLUMNS", ("20", "80", "200", None)), ("NO_COLOR", ("1", None)), ("TERM", ("dumb", "xterm-256color", None)), ("LANG", ("C", "C.UTF-8", "en_US.UTF-8", None)), ("LC_ALL", ("C", None)), ("FORCE_COLOR", ("1", None)), ("PYTHONWARNINGS", ("default", None)), ("JSONPATH_RFC9535_DEBUG", ("1", None))):
+        for k, vals in (("COLUMNS", ("20", "80", "200", None)), ("NO_COLOR", ("1", None)), ("TERM", ("dumb", "xterm-256color", None)), ("LANG", ("C", "C.UTF-8", "en_US.UTF-8", None)), ("LC_ALL", ("C", None)), ("FORCE_COLOR", ("1", None)), ("JSONPATH_RFC9535_DEBUG", ("1", None))):
+            # (only variables a *tool* might consult.  PYTHONWARNINGS=default was in this list and made
+            # the thorough tier's real-process sample report the interpreter's own "ResourceWarning:
+            # unclosed file" lines as extra diagnostics: what the user asks the interpreter to print is
+            # not the tool's diagnostic -- a false alarm of this check, removed here)
             if rng.random() < 0.4:
                 env_swarm[k] = rng.choice(vals)
     tty = rng.random() < 0.2
@@ -783,6 +787,8 @@ def _real_run(sc: Dict[str, Any], scratch: str) -> Dict[str, Any]:
     env["PYTHONIOENCODING"] = enc + ":" + sc["stdin_errors"]
     env["PYTHONDONTWRITEBYTECODE"] = "1"
     env["HOME"] = scratch
+    for k in ("PYTHONWARNINGS", "PYTHONDEVMODE", "PYTHONTRACEMALLOC", "PYTHONFAULTHANDLER", "PYTHONVERBOSE", "PYTHONINSPECT"):
+        env.pop(k, None)  # the interpreter's own diagnostics are not the tool's
     for k, v in (sc.get("environ") or {}).items():
         if v is None:
             env.pop(k, None)
